@@ -231,7 +231,7 @@ def parse_ops(src, consts):
     out = {}
     for op, parts in split_impls(src).items():
         impl = parts["impl"]
-        rec = {"inputs": [], "inputs_mp": None, "outputs": [], "status": None, "status_if": None}
+        rec = {"inputs": [], "inputs_mp": None, "outputs": [], "status": None, "status_if": None, "label_stmts": []}
         # --- deserialize_http
         m = re.search(r"pub fn deserialize_http\(req: &mut http::Request\) -> S3Result<(\w+)> \{(.*?)\n    \}", impl, re.S)
         if not m:
@@ -253,8 +253,12 @@ def parse_ops(src, consts):
                 b = parse_input_stmt(op, "bucket", ty, expr, consts)
                 rec["inputs"].append(dict(b, member="bucket"))
                 rec["inputs"].append(dict(b, member="key"))
+                rec["label_stmts"].append((b["helper"], ["bucket", "key"]))
             else:
-                rec["inputs"].append(parse_input_stmt(op, var, ty, expr, consts))
+                b = parse_input_stmt(op, var, ty, expr, consts)
+                rec["inputs"].append(b)
+                if b["loc"] == "label":
+                    rec["label_stmts"].append((b["helper"], [var]))
         m3 = re.fullmatch(r"Ok\((\w+) \{ (.*?),? \}\)", tail)
         if not m3 or m3.group(1) != rec["input_type"]:
             if tail == f"Ok({rec['input_type']} {{}})":
@@ -797,6 +801,7 @@ def emit(repo, verif_root):
     write_if_changed(os.path.join(verif_root, "lean/S3V/Gen/Route.lean"), "\n".join(L) + "\n")
 
     emit_bindings(verif_root, ops, smithy, op_names, consts)
+    emit_labels(verif_root, ops, smithy, op_names)
     emit_payloads(repo, verif_root, ops, smithy, shapes, op_names)
     emit_rust(repo, verif_root, ops, smithy, op_names, trait_methods, shapes, hooks)
     return {"ops": len(op_names), "arms": len(arms), "rules": sum(len(a["rules"]) for a in arms.values()),
@@ -934,6 +939,56 @@ def emit_bindings(verif_root, ops, smithy, op_names, consts):
     L.append("")
     L.append("end S3V.Gen")
     write_if_changed(os.path.join(verif_root, "lean/S3V/Gen/Bindings.lean"), "\n".join(L) + "\n")
+
+
+def emit_labels(verif_root, ops, smithy, op_names):
+    """Gen/Labels.lean: the label statements of every `deserialize_http` (helper, variables of the `let` pattern in
+    tuple order) and the segments of the operation's Smithy URI pattern (labels with their greedy mark, literals)."""
+    helper_pk = {"unwrap_bucket": "bucket", "unwrap_object": "object"}
+    L = []
+    L.append("/- GENERATED by translate/ops_tables.py — per operation, the label statements of `deserialize_http`")
+    L.append("   (ops/generated.rs) and the path segments of the Smithy URI pattern (data/s3.json). Regenerated on every run;")
+    L.append("   do not edit. -/")
+    L.append("import S3V.Gen.Bindings")
+    L.append("namespace S3V.Gen")
+    L.append("")
+    L.append("/-- one path segment of a Smithy URI pattern: `{Member}` / `{Member+}` (member name in the normal form of")
+    L.append("    `Binding.member`) or a literal -/")
+    L.append("inductive UriSeg where\n  | label (member : List UInt8) (greedy : Bool)\n  | lit (text : List UInt8)\n  deriving DecidableEq, Repr")
+    L.append("")
+    L.append("/-- T2: the label statements of `deserialize_http`, in order: `(.bucket, vars)` = `let vars = http::unwrap_bucket(req);`,")
+    L.append("    `(.object, vars)` = `let (vars) = http::unwrap_object(req);` — `vars` in tuple order -/")
+    L.append("def implLabelStmts : Op → List (PK × List (List UInt8))")
+    for o in op_names:
+        rows = []
+        for h, vs in ops[o]["label_stmts"]:
+            if h not in helper_pk:
+                raise Unrecognised(f"{o}::deserialize_http: label helper {h}")
+            rows.append(f"(.{helper_pk[h]}, [" + ", ".join(lean_str_bytes(norm_member(v)) for v in vs) + "])")
+        L.append(f"  | .{o} => [" + ", ".join(rows) + "]")
+    L.append("")
+    L.append("/-- the path of the operation's `smithy.api#http` URI pattern, segment by segment -/")
+    L.append("def smithyUriPath : Op → List UriSeg")
+    for o in op_names:
+        path = smithy[o]["uri"].partition("?")[0]
+        segs = []
+        for sg in [x for x in path.split("/") if x]:
+            m = re.fullmatch(r"\{(\w+)(\+?)\}", sg)
+            if m:
+                segs.append(f".label {lean_str_bytes(norm_member(snake(m.group(1))))} {str(m.group(2) == '+').lower()}")
+            elif "{" in sg or "}" in sg:
+                raise Unrecognised(f"{o}: URI segment `{sg}`")
+            else:
+                segs.append(f".lit {lean_str_bytes(sg)}")
+        L.append(f"  | .{o} => [" + ", ".join(segs) + "]")
+    L.append("")
+    mp_ops = [o for o in op_names if ops[o]["inputs_mp"] is not None]
+    L.append("/-- T2: the label statements of `deserialize_http_multipart` of `formOp` -/")
+    L.append("def implFormLabelStmts : List (PK × List (List UInt8)) := ["
+             + ", ".join(f"(.bucket, [{lean_str_bytes(norm_member(t[0]))}])" for t in ops[mp_ops[0]]["inputs_mp"] if t[1] == "label") + "]")
+    L.append("")
+    L.append("end S3V.Gen")
+    write_if_changed(os.path.join(verif_root, "lean/S3V/Gen/Labels.lean"), "\n".join(L) + "\n")
 
 
 def emit_payloads(repo, verif_root, ops, smithy, shapes, op_names):
